@@ -124,6 +124,25 @@ def install(I, loops, fname, olds_thunk):
             return False
         if s.orelse:
             raise Unsupported("while/else with invariant")
+        if ann.unroll is not None:
+            from .interp import _Break, _Continue
+            for it in range(ann.unroll):
+                if not I.is_true(I.eval(s.test, env)):
+                    return True
+                try:
+                    I.exec_block(s.body, env)
+                except _Continue:
+                    continue
+                except _Break:
+                    return True
+            # unwinding assertion: after `unroll` iterations the loop has exited
+            tag = f"{fname}#loop{k}"
+            check_now(I, f"{tag}/unwinding[{ann.unroll}]/path{len([e for e in I.loop_emitted if e[0] == tag])}",
+                      lambda: (lambda t: Conc(not t) if isinstance(t, bool) else SymBool(z3.Not(t)))(I.truth(I.eval(s.test, env))),
+                      f"the loop exits within {ann.unroll} iterations (complete unrolling at the stated width)")
+            I.loop_emitted.add((tag, "unw", len(I.loop_emitted)))
+            I.assume_path_bool(lambda: (lambda t: Conc(not t) if isinstance(t, bool) else SymBool(z3.Not(t)))(I.truth(I.eval(s.test, env))))
+            return True
         olds = olds_thunk()
         tag = f"{fname}#loop{k}"
         emitted = I.loop_emitted
